@@ -50,6 +50,8 @@ class AsyncResult:
         self.type = JobType.APPLY
         self.job_id = next(job_counter) if job_id is None else job_id
         self._ready_event = threading.Event()
+        self._set_lock = threading.Lock()
+        self._is_set = False
         self._success = None
         self._value = None
         if self.job_id in self._cache:
@@ -104,6 +106,13 @@ class AsyncResult:
         :param success: True if the task has finished successfully
         :param result: Output of the function or the exception raised by the function
         """
+        # The result can be set from different threads (results, timeout, and unexpected death handlers). Only the
+        # first one counts, such that there's one outcome and one callback
+        with self._set_lock:
+            if self._is_set:
+                return
+            self._is_set = True
+
         self._success = success
         self._value = result
 
@@ -115,7 +124,7 @@ class AsyncResult:
 
         self._ready_event.set()
         if self._delete_from_cache:
-            del self._cache[self.job_id]
+            self._cache.pop(self.job_id, None)
 
 
 class UnorderedAsyncResultIterator:
@@ -264,6 +273,7 @@ class AsyncResultWithExceptionGetter(AsyncResult):
         """
         self._success = None
         self._value = None
+        self._is_set = False
         self._ready_event.clear()
 
 
